@@ -1,15 +1,97 @@
 (* C02 — optimizer passes never change what a grammar parses.
-   INTERIM: the unroll pass is sound by the definition of the reference semantics (bounded
-   repetitions ARE their unrolled sequences); for the other passes the statement below is
-   decided differentially on every run (O vs I and OG vs IG on grammars built around each
-   rewrite trigger, under the default pipeline, every single pass and seeded subsets,
-   permutations and repetitions), with both sides tied to the reference semantics. A Coq model
-   of the passes (Opt.v) with per-pass soundness theorems is the planned strengthening. *)
+   The passes (src/pest/grammar/optimizer.py, optimizers/*.py, choice.py) are not modelled; their
+   OUTPUT is validated: `Opt.ochk_grammar g g'` is an executable checker that recognises every
+   difference between the rule table before (g) and after (g') optimisation as an instance of a
+   rewrite proved meaning-preserving — unrolling, (!lits ~ ANY)* -> SkipUntil where implicit
+   trivia is off, inlining of plain silent rules, squashing a choice of terminals into the
+   ordered alternation the compiled regex denotes — and rejects anything else. On every run the
+   extracted checker is applied to the tables python-pest's optimizer actually produced (default
+   pipeline, each single pass, seeded permutations / subsets / repetitions) for every generated
+   grammar; a rejected table is reported (with a failing input when O vs I finds one).
+   Theorem: whatever the checker accepts parses exactly like the original. Proof: OptProof.v
+   (two-grammar simulation in both directions, by induction on fuel and on the derivation of the
+   rewrite relation; the skip and squash lemmas by induction on the input), no axioms. *)
 From Coq Require Import List NArith.
 Import ListNotations.
-From PP Require Import Base Syntax Spec SpecMono SpecLaws.
+From PP Require Import Base Syntax Spec SpecMono SpecLaws SpecEquiv Opt OptProof Interp InterpProof Gen GenProof.
 
-(* unroll: e+ , e{n}, e{n,}, e{,n}, e{m,n}  ->  sequences of e, e? and e* *)
+(* `req`: same constructor; on success the same tree and the same final position, stack and tags;
+   failure with failure; undefined rule with undefined rule *)
+Theorem C02_validated_optimization_preserves_meaning : forall g g' fuel, ochk_grammar g g' fuel = true ->
+  forall rule input k, defined_in g rule = true ->
+    (forall f r, parse g f rule input k = r -> r <> Fuel -> exists f', req (parse g' f' rule input k) r) /\
+    (forall f r, parse g' f rule input k = r -> r <> Fuel -> exists f', req (parse g f' rule input k) r).
+Proof. exact ochk_sound. Qed.
+
+(* hence for the two machines (Interp.v: modes I / O, Gen.v: modes IG / OG): on a validated pair of
+   tables, whenever the interpreter finishes on both, it returns the same tree or fails on both *)
+Definition one_modifier (g : grammar) : Prop :=
+  forall n r, lookup g n = Some r -> r_silent r = true -> r_kind r = KNormal \/ r_kind r = KAtomic.
+Lemma one_modifier_silent_ok g : one_modifier g ->
+  forall n r, lookup g n = Some r -> r_silent r = true -> silent_ok g r.
+Proof.
+  intros NS n r L S. destruct (NS n r L S) as [K|K].
+  - right; left; exact K.
+  - left; unfold hides; rewrite K; reflexivity.
+Qed.
+
+Lemma parse_det g f1 f2 rule input k r1 r2 :
+  parse g f1 rule input k = r1 -> r1 <> Fuel -> parse g f2 rule input k = r2 -> r2 <> Fuel -> r1 = r2.
+Proof.
+  intros H1 D1 H2 D2.
+  assert (A := parse_mono g f1 (max f1 f2) rule input k _ H1 D1 (PeanoNat.Nat.le_max_l _ _)).
+  assert (B := parse_mono g f2 (max f1 f2) rule input k _ H2 D2 (PeanoNat.Nat.le_max_r _ _)).
+  congruence.
+Qed.
+
+Lemma link g g' fuel : ochk_grammar g g' fuel = true ->
+  forall rule input k, defined_in g rule = true ->
+  forall fa fc r1 r2, parse g fa rule input k = r1 -> r1 <> Fuel ->
+    parse g' fc rule input k = r2 -> r2 <> Fuel -> req r2 r1.
+Proof.
+  intros V rule input k D fa fc r1 r2 H1 D1 H2 D2.
+  destruct (ochk_sound g g' fuel V rule input k D) as [FW _].
+  destruct (FW fa r1 H1 D1) as [fb Hb].
+  assert (Nb : parse g' fb rule input k <> Fuel) by (eapply req_nofuel; eassumption).
+  rewrite (parse_det g' fb fc rule input k _ _ eq_refl Nb H2 D2) in Hb. exact Hb.
+Qed.
+
+Theorem C02_interpreter_optimized_equals_unoptimized : forall g g' fuel,
+  ochk_grammar g g' fuel = true -> one_modifier g -> one_modifier g' ->
+  forall rule input k f1 f2, defined_in g rule = true ->
+    match iparse g f1 rule input k, iparse g' f2 rule input k with
+    | IOk true s1 p1, IOk true s2 p2 => p1 = p2 /\ i_pos s1 = i_pos s2 /\ i_user s1 = i_user s2
+    | IOk false _ _, IOk false _ _ => True
+    | IUndef, IUndef => True
+    | IFuel, _ | _, IFuel => True
+    | _, _ => False
+    end.
+Proof.
+  intros g g' fuel V N1 N2 rule input k f1 f2 D.
+  pose proof (iparse_refines g (one_modifier_silent_ok g N1) f1 rule input k) as R1.
+  pose proof (iparse_refines g' (one_modifier_silent_ok g' N2) f2 rule input k) as R2.
+  pose proof (link g g' fuel V rule input k D) as L.
+  destruct (iparse g f1 rule input k) as [m1 s1 p1| | |]; [|contradiction| |exact I].
+  - destruct (iparse g' f2 rule input k) as [m2 s2 p2| | |]; [|contradiction| |destruct m1; exact I].
+    + destruct m1, m2.
+      * destruct R1 as [[fa Ha] _]. destruct R2 as [[fc Hc] _].
+        assert (Q := L fa fc _ _ Ha ltac:(discriminate) Hc ltac:(discriminate)).
+        cbn [req] in Q. destruct Q as [Hs Hp]. unfold same_core, st_core in Hs. cbn in Hs.
+        inversion Hs. subst. repeat split; reflexivity.
+      * destruct R1 as [[fa Ha] _]. destruct R2 as [[fc Hc] _].
+        exact (L fa fc _ _ Ha ltac:(discriminate) Hc ltac:(discriminate)).
+      * destruct R1 as [[fa Ha] _]. destruct R2 as [[fc Hc] _].
+        exact (L fa fc _ _ Ha ltac:(discriminate) Hc ltac:(discriminate)).
+      * exact I.
+    + destruct R2 as [fc Hc]. destruct m1; destruct R1 as [[fa Ha] _];
+        exact (L fa fc _ _ Ha ltac:(discriminate) Hc ltac:(discriminate)).
+  - destruct R1 as [fa Ha].
+    destruct (iparse g' f2 rule input k) as [m2 s2 p2| | |]; [|contradiction|exact I|exact I].
+    destruct m2; destruct R2 as [[fc Hc] _];
+      exact (L fa fc _ _ Ha ltac:(discriminate) Hc ltac:(discriminate)).
+Qed.
+
+(* the individual rewrites, as laws of the reference semantics *)
 Theorem C02_unroll_plus : forall g c e s r,
   evals g c (EPlus e) s r <-> evals g c (ESeq [e; EStar e]) s r.
 Proof. exact plus_unrolled. Qed.
@@ -25,11 +107,30 @@ Proof. exact repmax_unrolled. Qed.
 Theorem C02_unroll_minmax : forall g c e m n s r,
   evals g c (ERepMinMax e m n) s r <-> evals g c (ESeq (repeat e m ++ repeat (EOpt e) (n - m))) s r.
 Proof. exact repminmax_unrolled. Qed.
-
-(* skip is only applied where implicit trivia is off; there (!s ~ ANY)* is a plain loop *)
 Theorem C02_skip_side_condition : forall g ev c s, c_atom c <> NonAtomic -> skip_with g ev c s = Ok s [].
 Proof. exact atomic_no_trivia. Qed.
 
+(* non-vacuity: the checker accepts a real optimizer output (unroll + squash + fused SKIP rule) and
+   rejects the reordering of "a" | "ab" and a skip rewrite where trivia applies *)
+Definition R n sil k b := {| r_name := n; r_silent := sil; r_kind := k; r_body := b |}.
+Example validator_accepts : ochk_grammar
+    [R 0 true KNormal (EAlt [EStr [32%N]; EStr [9%N]]);
+     R 4 false KNormal (ESeq [EPlus (EGrp (EAlt [ERange 122 97; EStr [120%N]; ERange 51 52; ERange 98 98]) None); EOpt (EStr [33%N])])]
+    [R 2 true KAtomic (EStar (EAlt [ECls [(9,9);(32,32)]%N])); R 0 true KNormal (EAlt [ECls [(9,9);(32,32)]%N]);
+     R 4 false KNormal (ESeq [ESeq [EAlt [ECls [(51,52);(98,98);(120,120)]%N];
+                                    EStar (EGrp (EAlt [ECls [(51,52);(98,98);(120,120)]%N]) None)]; EOpt (EStr [33%N])])] 200 = true.
+Proof. vm_compute. reflexivity. Qed.
+Example validator_rejects_reordering :
+  ochk_grammar [R 4 false KNormal (EAlt [EStr [97%N]; EStr [97;98]%N])]
+               [R 4 false KNormal (EAlt [EStr [97;98]%N; ECls [(97,97)]%N])] 200 = false.
+Proof. vm_compute. reflexivity. Qed.
+Example validator_rejects_skip_under_trivia :
+  ochk_grammar [R 0 true KNormal (EStr [32%N]); R 4 false KNormal (EStar (EGrp (ESeq [ENot (EStr [98%N]); EAny]) None))]
+               [R 0 true KNormal (EStr [32%N]); R 4 false KNormal (ESkipUntil [[98%N]])] 200 = false.
+Proof. vm_compute. reflexivity. Qed.
+
+Print Assumptions C02_validated_optimization_preserves_meaning.
+Print Assumptions C02_interpreter_optimized_equals_unoptimized.
 Print Assumptions C02_unroll_plus.
 Print Assumptions C02_unroll_exact.
 Print Assumptions C02_unroll_min.
